@@ -12,6 +12,7 @@ mod c09;
 mod c10;
 mod c11;
 mod c12;
+mod c13;
 mod c14;
 mod c15;
 mod c17;
@@ -95,6 +96,11 @@ fn main() {
             "C10" => c10::run(ctx),
             "C11" => c11::run(ctx),
             "C12" => c12::run(ctx),
+            "C13" => {
+                let mut ctx = ctx;
+                ctx.level = "translation_validation".to_string();
+                c13::run(ctx)
+            }
             "C14" => c14::run(ctx),
             "C15" => c15::run(ctx),
             "C17" => c17::run(ctx),
